@@ -375,6 +375,28 @@ func ZZ_C12_ellipsis() {
 		}
 		p = rt.Try(func() { NewListNode(one, "..."+suf) })
 		rt.Assert(p == !ok, "ellipsis:suffix-grammar")
+	case 7:
+		// two ellipses with different spellings among plain list variables, in every
+		// arrangement and under every iteration order of the list's variable map (the native
+		// run repeats the call, Go randomises the order)
+		names := [][]string{
+			{"...", "x", "...[1]"}, {"...", "...[1]", "x"}, {"x", "...", "...[1]"},
+			{"...[0]", "x", "y", "...[1]"}, {"x", "...[0]", "y", "...[1]"}, {"...[1]", "x", "...[0]", "y"},
+		}[rt.Param("k")]
+		rt.MapOrder(rt.Param("order"))
+		reps := 1
+		if !rt.IsSymbolic() {
+			reps = 300
+		}
+		for r := 0; r < reps; r++ {
+			args := []interface{}{one}
+			for _, nm := range names {
+				args = append(args, nm)
+			}
+			p = rt.Try(func() { NewListNode(args...) })
+			rt.Assert(p, "ellipsis:second-refused-among-variables")
+		}
+		rt.MapOrder(0)
 	}
 	rt.Reach("end")
 }
